@@ -510,6 +510,10 @@ class GateMemoizer:
         def make_context_entry(arg):
             if isinstance(arg, str):
                 return context.get(arg)
+            elif isinstance(arg, (list, tuple)):
+                # Identifiers nested in an argument (e.g. the register and
+                # index of an array item) are resolved in the context too.
+                return tuple(make_context_entry(a) for a in arg)
             else:
                 return None
 
